@@ -249,6 +249,26 @@ def worker(case, led):
             led.check(np.abs(Ad / np.linalg.norm(Ad) - ref).max() <= 1e-9, "post:ThermalProp.evolve_exact:local_gibbs_state", "ThermalProp.evolve_exact",
                       f"deviates from the normalised expm(-beta/2 H_loc) A0 by {np.abs(Ad / np.linalg.norm(Ad) - ref).max():.2e}", key, {"space": space},
                       {"nmol": nmol, "scheme": scheme, "space": space, "beta": beta, "seed": seed})
+            # continued from a density operator that is NOT the identity on the vibrations (the result of the run above in the other space's propagator does not
+            # commute with this one; a loaded / previously thermalised state): the propagator acts from the PHYSICAL side, P rho, not rho P
+            try:
+                other = "EX" if space == "GS" else "GS"
+                B0 = tp.latest_mps.copy()
+                B0d = S.dense(B0)
+                Ho = local_h(model, other)
+                tp3 = ThermalProp(B0, exact=True, space=other)
+                tp3.evolve(None, 2, beta / 2j)
+                Bd = S.dense(tp3.latest_mps)
+                refB = scipy.linalg.expm(-beta / 2 * Ho) @ B0d
+                refB = refB / np.linalg.norm(refB)
+                wrong = B0d @ scipy.linalg.expm(-beta / 2 * Ho)
+                nontriv = np.abs(wrong / np.linalg.norm(wrong) - refB).max() > 1e-6
+                dev = np.abs(Bd / np.linalg.norm(Bd) - refB).max()
+                led.check(dev <= 1e-9, "post:ThermalProp.evolve_exact:propagator_acts_from_the_physical_side", "ThermalProp.evolve_exact",
+                          f"continued in space {other} from the thermal state of space {space}: deviates from expm(-beta/2 H_loc) rho by {dev:.2e}", key + ("continued",),
+                          {"space": other, "start": "thermal state of the other space"}, {"nmol": nmol, "scheme": scheme, "space": other, "beta": beta, "seed": seed}, nontrivial=bool(nontriv))
+            except Exception as e:
+                led.check(False, "post:ThermalProp.evolve_exact:total", "ThermalProp.evolve_exact", f"continued run raised {type(e).__name__}: {e}", key + ("continued",), {"space": space}, {})
             # the same with an explicit Hamiltonian model (documented argument h_mpo_model) that differs from the model of the identity state
             if isinstance(nmol, int):
                 model2 = holstein(nmol, scheme, seed=seed + 101)
